@@ -620,6 +620,10 @@ Rock::Rebuild::finalizeOrThrow(const sfileno fileNo, LoadingEntry &le)
     Must(slotId < 0);
     Must(mappedSize == le.size);
 
+    // an entry that knows its size must have exactly that many bytes on disk
+    // (addSlotToEntry() rejects extra bytes; missing bytes are detected here)
+    Must(!anchor.basics.swap_file_sz || anchor.basics.swap_file_sz == le.size);
+
     if (!anchor.basics.swap_file_sz)
         anchor.basics.swap_file_sz = le.size;
     EBIT_SET(anchor.basics.flags, ENTRY_VALIDATED);
